@@ -195,6 +195,8 @@ var c05Floats = []uint64{0, 0x8000000000000000, 0x3ff8000000000000, 0x7ff0000000
 var c05Ints = []int64{0, 1, -1, math.MinInt64, math.MaxInt64, 42}
 var c05Strs = []string{"", "v", "w", "a=b,c\\d", "\xff", "š€", "1"}
 
+var c05JSONStrs = []string{"\"q\"", "<a&b>", "\n\t\r", "\b\f", "\x00\x01\x1f", "\x7f", "\u2028x\u2029", "\xe2\x80", "a\xc3", "\\", "é\u00a0", "\U0001f600"}
+
 func c05GenVal(r *vRand) Value {
 	f := func() float64 { return math.Float64frombits(vPick(r, c05Floats)) }
 	switch r.Intn(10) {
@@ -229,7 +231,12 @@ func c05GenVal(r *vRand) Value {
 	default:
 		xs := []string{}
 		for i, n := 0, r.Intn(3); i < n; i++ {
-			xs = append(xs, vPick(r, c05Strs))
+			if r.Intn(3) == 0 {
+				// what json.Marshal escapes: quotes, HTML characters, control characters, U+2028/9, invalid bytes
+				xs = append(xs, vPick(r, c05JSONStrs))
+			} else {
+				xs = append(xs, vPick(r, c05Strs))
+			}
 		}
 		return StringSliceValue(xs)
 	}
@@ -797,6 +804,31 @@ func (e c05Emitter) iter(gen string, in []KeyValue, k int) {
 		c05KVs([]KeyValue{after}), c05B(extra), shown, c05B(nxt))
 }
 
+// nilfilter: Set.Filter on a nil *Set / the zero Set / empty Sets; a panic of Filter is the observation "panic"
+func (e c05Emitter) nilfilter(which, ftok string) {
+	var l *Set
+	switch which {
+	case "nil":
+	case "zero":
+		l = &Set{}
+	case "new":
+		s := NewSet()
+		l = &s
+	default:
+		l = EmptySet()
+	}
+	obs := func() (res string) {
+		defer func() {
+			if p := recover(); p != nil {
+				res = "panic"
+			}
+		}()
+		kept, dropped := l.Filter(c05ParseFilter(ftok))
+		return c05KVs(kept.ToSlice()) + " " + c05KVs(dropped)
+	}()
+	e.line("nilfilter fix %s %s => %s", which, ftok, obs)
+}
+
 // nilset: every accessor on a nil *Set, the zero Set{}, NewSet() and EmptySet(); which = nil | zero | new | empty
 func (e c05Emitter) nilset(which, other string, k string, idx int) {
 	mk := func(w string) *Set {
@@ -1098,6 +1130,8 @@ func TestVerifC05Set(t *testing.T) {
 			case "iter":
 				k, _ := strconv.Atoi(f[3])
 				e.iter(f[1], c05ParseKVs(f[2]), k)
+			case "nilfilter":
+				e.nilfilter(f[2], f[3])
 			case "nilset":
 				idx, _ := strconv.Atoi(f[5])
 				e.nilset(f[2], f[3], c05Unhex(strings.TrimPrefix(f[4], "x")), idx)
@@ -1109,6 +1143,11 @@ func TestVerifC05Set(t *testing.T) {
 	n := vN(20000)
 	{
 		// nil *Set, zero Set{}, NewSet(), EmptySet(), a Set whose every attribute was filtered out: every accessor, all pairs
+		for _, w := range []string{"nil", "zero", "new", "empty"} {
+			for _, ft := range []string{"nil", "allow", "deny", "allow." + c05Hex("a"), "vt.2"} {
+				e.nilfilter(w, ft)
+			}
+		}
 		kinds := []string{"nil", "zero", "new", "empty", "filtered"}
 		for _, w := range kinds {
 			for _, o := range kinds {
